@@ -35,13 +35,14 @@ struct Schema {
     physical: &'static [usize],
 }
 
-const SCHEMAS: [Schema; 6] = [
+const SCHEMAS: [Schema; 7] = [
     Schema { name: "pk-id", create: "CREATE TABLE t (id INTEGER PRIMARY KEY, a INTEGER, b INTEGER, c VARCHAR(10))", pk: &[0], unique: &[], not_null: &[], check_b_nonneg: false, physical: &[0, 1, 2, 3] },
     Schema { name: "no-pk", create: "CREATE TABLE t (id INTEGER, a INTEGER, b INTEGER, c VARCHAR(10))", pk: &[], unique: &[], not_null: &[], check_b_nonneg: false, physical: &[0, 1, 2, 3] },
     Schema { name: "pk-second-column", create: "CREATE TABLE t (a INTEGER, id INTEGER PRIMARY KEY, b INTEGER, c VARCHAR(10))", pk: &[0], unique: &[], not_null: &[], check_b_nonneg: false, physical: &[1, 0, 2, 3] },
     Schema { name: "pk-composite", create: "CREATE TABLE t (id INTEGER, a INTEGER, b INTEGER, c VARCHAR(10), PRIMARY KEY (id, a))", pk: &[0, 1], unique: &[], not_null: &[], check_b_nonneg: false, physical: &[0, 1, 2, 3] },
     // column c is a DATE: values arrive as strings and are converted (or refused) by the executor
     Schema { name: "date-column", create: "CREATE TABLE t (id INTEGER PRIMARY KEY, a INTEGER, b INTEGER, c DATE)", pk: &[0], unique: &[], not_null: &[], check_b_nonneg: false, physical: &[0, 1, 2, 3] },
+    Schema { name: "two-uniques", create: "CREATE TABLE t (id INTEGER PRIMARY KEY, a INTEGER, b INTEGER, c VARCHAR(10), UNIQUE (a), UNIQUE (b))", pk: &[0], unique: &[1, 2], not_null: &[], check_b_nonneg: false, physical: &[0, 1, 2, 3] },
     Schema { name: "constraints", create: "CREATE TABLE t (id INTEGER PRIMARY KEY, a INTEGER UNIQUE, b INTEGER NOT NULL, c VARCHAR(10), CHECK (b >= 0))", pk: &[0], unique: &[1], not_null: &[2], check_b_nonneg: true, physical: &[0, 1, 2, 3] },
 ];
 
@@ -304,8 +305,8 @@ pub fn run_c15(ctx: &mut Ctx) {
 
 fn setup(rng: &mut Rng, mode: Mode) -> (Session, &'static Schema, Vec<String>) {
     let sch: &'static Schema = match mode {
-        Mode::C10 => if rng.chance(2, 3) { &SCHEMAS[5] } else { &SCHEMAS[rng.usize(5)] },
-        _ => &SCHEMAS[rng.usize(6)],
+        Mode::C10 => if rng.chance(1, 2) { &SCHEMAS[6] } else if rng.chance(1, 2) { &SCHEMAS[5] } else { &SCHEMAS[rng.usize(5)] },
+        _ => &SCHEMAS[rng.usize(7)],
     };
     let mut s = Session::new();
     s.must(sch.create);
